@@ -11,6 +11,7 @@ REAL_REPLAY = False
 STUBS = ['(partition) the phase fraction returned by the stub ranges over the concrete values -0.25, 0, 0.125, 0.5, 0.875, 1, 1.5 (symbolic phi makes every flow a rational function and z3 needs ~20 s per query)',
          'thermo.mixture of every stream: H uninterpreted, solve_T_at_HP returns a fresh temperature (energy balance inside mix_and_split)',
          'separations.compute_phase_fraction (Rachford-Rice root finder): returns a fresh phase fraction (any real number; the real code clamps it)',
+         '(rachford-rice-shortcuts) flexsolve.find_bracket keeps the bracket, flexsolve.IQ_interpolation returns a fresh point of the bracket under the contract f(point) == 0; K from 7 concrete pairs / triples',
          'LLE solver inside the lle wrapper: fresh split with 0 <= l_i <= mol_i (as in C03)']
 ASSUMPTIONS = ['feeds symbolic >= 0 on a presence pattern, splits in [0,1], moisture in (0, 0.95), efficiency in [0,1]; partition coefficients from three concrete pairs (2, 0.5), (0.25, 8), (1e-3, 1e3)',
                'outlets start empty (quick) or with arbitrary previous contents (thorough, separate group)']
@@ -29,7 +30,7 @@ def setup(mode):
         _fx['MW'] = [float(x) for x in th.chemicals.MW]
         isolation.track(th.chemicals._index_cache)
     if sym:
-        C.patch(S.SYM_MODULES + ['thermosteam.separations', 'thermosteam.equilibrium.lle'])
+        C.patch(S.SYM_MODULES + ['thermosteam.separations', 'thermosteam.equilibrium.lle', 'thermosteam.equilibrium.binary_phase_fraction'])
         C.setg(C.mod('thermosteam.base.sparse').SparseVector, 'dtype', core.symfloat)
 
 
@@ -181,6 +182,71 @@ def g_partition(dirty, forced_choices=('none', 'top:O2', 'bottom:Octanol', 'both
     return run
 
 
+class _RRFlx:
+    """flexsolve inside binary_phase_fraction.py: find_bracket keeps the bracket it was given, IQ_interpolation returns
+    a fresh point of the bracket that is a root of the function it was handed (the root finder's contract)"""
+    def __init__(self, E, real):
+        self.E, self.real = E, real
+
+    def __getattr__(self, n):
+        return getattr(self.real, n)
+
+    def find_bracket(self, f, x0, x1, y0, y1, args=(), **kw):
+        return x0, x1, y0, y1
+
+    def IQ_interpolation(self, f, x0, x1, y0, y1, x=None, xtol=0., ytol=0., args=(), **kw):
+        E = self.E
+        E.stub_called('IQ_interpolation')
+        r = E.real('phi_root', lo=0, hi=1, nice=(0.1, 0.9))
+        E.assume(E.all([r >= x0, r <= x1]) if not E.concrete else True)
+        E.assume(E.eq(f(r, *args), 0.0), 'root finder contract: f(root) == 0')
+        return r
+
+
+def g_rachford_rice():
+    """binary_phase_fraction.phase_fraction (what partition / phase_fraction call): the shortcuts that answer 0 or 1
+    WITHOUT solving are taken only when the Rachford-Rice function with forced top / bottom fractions has no root
+    strictly inside (0, 1); otherwise the answer is a root (contract of the stubbed root finder) clamped to [0, 1]"""
+    def run(E):
+        b = C.mod('thermosteam.equilibrium.binary_phase_fraction')
+        real = b.flx.real if isinstance(b.flx, _RRFlx) else b.flx
+        C.setg(b, 'flx', _RRFlx(E, real))
+        Ks = list(E.pick([(2.0, 0.5), (1.5, 3.0), (0.5, 0.25), (1e-3, 1e3), (1.5, 3.0, 8.0), (0.5, 0.25, 0.125), (2.0, 0.5, 0.9)], 'K'))
+        n = len(Ks)
+        zs = []
+        for i in range(n):
+            z = E.real(f'z{i}', nice=(0.05, 0.5))
+            E.assume(z > 0)
+            zs.append(z)
+        forced = E.pick(['none', 'top', 'bottom', 'both'], 'forced')
+        za = zb = 0.0
+        if forced in ('top', 'both'):
+            za = E.real('za', nice=(0.05, 0.3))
+            E.assume(za > 0)
+        if forced in ('bottom', 'both'):
+            zb = E.real('zb', nice=(0.05, 0.3))
+            E.assume(zb > 0)
+        E.assume(E.eq(sum(zs) + za + zb, 1.0), 'fractions sum to one')
+        import numpy as np
+        phi = b.phase_fraction(C.array(E, zs), np.array(Ks), None, za, zb)
+        sig = f'K={tuple(Ks)}/forced={forced}'
+        E.observe('phi', phi)
+        E.prove('phase-fraction-in-unit-interval', E.all([E.ge(phi, 0.0), E.le(phi, 1.0)]), sig=sig)
+        def rr(p):
+            return sum(-z * (K - 1.0) / (1.0 + p * (K - 1.0)) for z, K in zip(zs, Ks)) - za / p + zb / (1.0 - p)
+        if n == 2 and forced == 'none' and E.all([phi > 0, phi < 1]):
+            # two chemicals, nothing forced: closed form instead of the root finder - it must be the root
+            E.prove('closed-form-phase-fraction-is-the-root', E.eq(rr(phi), 0.0), sig=sig)
+        elif not E.stub_calls.get('IQ_interpolation'):
+            # answered without solving: the function must have no root strictly inside the interval
+            p = E.real('phi_probe', lo=0, hi=1, nice=(0.05, 0.95))
+            # the solver brackets [1e-16, 1 - 1e-16]: a root closer than that to an end is answered by the end itself;
+            # the probe stays 1e-9 away from the ends
+            E.assume(E.all([p >= 1e-9, p <= 1 - 1e-9]) if not E.concrete else (1e-9 <= p <= 1 - 1e-9))
+            E.prove('answered-without-solving-only-when-there-is-no-root-inside', E.ne(rr(p), 0.0), sig=sig)
+    return run
+
+
 def g_misc():
     def run(E):
         sep = C.mod('thermosteam.separations')
@@ -275,6 +341,7 @@ def groups(tier):
         'mix_and_split': (g_mix_and_split(False), dict(max_paths=400000)),
         'adjust_moisture_content': (g_moisture(), dict(max_paths=400000, qtimeout_ms=20000)),
         'partition': (g_partition(False, ('none', 'both') if q else ('none', 'top:O2', 'bottom:Octanol', 'both')), dict(max_paths=400000, qtimeout_ms=20000, stubs_required=('compute_phase_fraction',))),
+        'rachford-rice-shortcuts': (g_rachford_rice(), dict(max_paths=400000, qtimeout_ms=30000, task_budget_s=200)),
         'phase_split-chemical_splits-clipping': (g_misc(), dict(qtimeout_ms=20000)),
     }
     if not q:
